@@ -65,8 +65,10 @@ type Meta struct {
 }
 
 type Row struct {
-	Id    int64 `sql:",primary"`
-	I8    int8
+	Id      int64 `sql:",primary"`
+	hidden  int    // unexported: not a column
+	Skipped string `sql:"-"` // explicitly not a column; both sit in front of every other column
+	I8      int8
 	I16   int16
 	I32   int32
 	U8    uint8
